@@ -112,10 +112,10 @@ theorem DataLL.insert {s : Nat} {pre post : List DNode} {l : List Bytes} {n : DN
   · exact h.2 x (by simp [hx])
 
 /-- `lyd_diff_insert` of a new instance `k` behind the anchor (`none` = first) -/
-theorem insertUO_new {S : Schema} {s : Nat} (C : LLCtx S s) {sibs : List DNode} {l l' : List Bytes} (h : DataLL s sibs l)
+theorem insertUO_new {S : Schema} {s : Nat} (C : LLCtx S s) (hp : Bool) {sibs : List DNode} {l l' : List Bytes} (h : DataLL s sibs l)
     (n : DNode) (hn : ∃ nw, n = .term s { new := nw } [] n.val) (a : Option Bytes)
     (hins : UOG.insertAfter l a n.val = some l') :
-    ∃ sibs', insertUO S sibs false n none a = .ok sibs' ∧ DataLL s sibs' l' := by
+    ∃ sibs', insertUO S sibs hp n none a = .ok sibs' ∧ DataLL s sibs' l' := by
   have hns : n.sid = s := by obtain ⟨nw, e⟩ := hn; rw [e]; rfl
   unfold insertUO
   by_cases hemp : sibs = []
@@ -171,11 +171,11 @@ theorem idxOf_zero_iff {l : List Bytes} {k : Bytes} (hk : k ∈ l) : l.idxOf k =
       simp [List.idxOf_cons, e', e]
 
 /-- `lyd_diff_insert` of the existing instance `k` (= `sibs[idxOf k]`) behind the anchor -/
-theorem insertUO_move {S : Schema} {s : Nat} (C : LLCtx S s) {sibs : List DNode} {l l' : List Bytes} (h : DataLL s sibs l)
+theorem insertUO_move {S : Schema} {s : Nat} (C : LLCtx S s) (hp : Bool) {sibs : List DNode} {l l' : List Bytes} (h : DataLL s sibs l)
     (n : DNode) (hn : ∃ nw, n = .term s { new := nw } [] n.val) (hk : n.val ∈ l) (a : Option Bytes)
     (ha1 : a ≠ some n.val) (ha2 : ¬ (a = none ∧ l.head? = some n.val))
     (hins : UOG.insertAfter (l.erase n.val) a n.val = some l') :
-    ∃ sibs', insertUO S sibs false n (some (l.idxOf n.val)) a = .ok sibs' ∧ DataLL s sibs' l' := by
+    ∃ sibs', insertUO S sibs hp n (some (l.idxOf n.val)) a = .ok sibs' ∧ DataLL s sibs' l' := by
   have hns : n.sid = s := by obtain ⟨nw, e⟩ := hn; rw [e]; rfl
   have hemp : sibs ≠ [] := by
     intro e; subst e
